@@ -64,7 +64,7 @@ def main(tier, replay=None):
         if k == "A":
             n_mon += 1
             parts = il.split(" ")
-            used = [x for x in (f[3].split(",") if len(f) > 3 else []) if x]
+            used = [x.rstrip("e") for x in (f[3].split(",") if len(f) > 3 else []) if x]
             if len(parts) >= 3 and (parts[2] == "0" or parts[2] in used):
                 mon_viol += 1
                 report("session-id-not-unique", key, "get_next_sess_id returned an identifier that is 0 or held by a live session")
